@@ -1,7 +1,8 @@
 import TabulaModel.Lemmas.HtmlSrc
 /-!
 Helper lemmas for C19 (Props/C19Text.lean): the source text `src` against the wanted text
-`want` — they agree (up to white space) on every tree without a mixed paragraph.
+`want` — they agree (up to white space) on every tree in which no paragraph with block-level
+children has a child that is neither block-level nor inline content (`noWrapped`).
 -/
 namespace Tabula.Html
 
@@ -122,7 +123,7 @@ theorem src_mem (p : Pos → Dom → Bool) (w : Bool) {c : Nat} :
           · exact h
           · split at h
             · exact h
-            · exact srcL_mem p w kids _ h
+            · exact srcM_mem p w kids _ h
           · exact srcL_mem p w kids _ h
           · rw [List.mem_append] at h
             rcases h with h | h
@@ -153,6 +154,17 @@ theorem srcLi_mem (p : Pos → Dom → Bool) (w : Bool) {c : Nat} :
         · exact Or.inl (src_mem p w k kp h)
         · cases h
       · exact Or.inr (srcLi_mem p w ks kp h)
+theorem srcM_mem (p : Pos → Dom → Bool) (w : Bool) {c : Nat} :
+    ∀ (ts : List Dom) (kp : Pos), c ∈ srcM p w kp ts → c ∈ tnFlatL ts
+  | [], kp, h => by simp [srcM] at h
+  | k :: ks, kp, h => by
+      simp only [srcM, List.mem_append] at h
+      simp only [tnFlatL, List.mem_append]
+      rcases h with h | h
+      · split at h
+        · exact Or.inl h
+        · exact Or.inl (src_mem p w k kp h)
+      · exact Or.inr (srcM_mem p w ks kp h)
 end
 
 /-- a subtree whose text nodes are blank has a blank source text -/
@@ -166,125 +178,151 @@ theorem srcL_blank (p : Pos → Dom → Bool) (w : Bool) (ts : List Dom) (kp : P
   rw [squeeze_nil_iff] at h ⊢
   exact fun c hc => h c (srcL_mem p w ts kp hc)
 
+theorem srcM_blank (p : Pos → Dom → Bool) (w : Bool) (ts : List Dom) (kp : Pos)
+    (h : squeeze (tnFlatL ts) = []) : squeeze (srcM p w kp ts) = [] := by
+  rw [squeeze_nil_iff] at h ⊢
+  exact fun c hc => h c (srcM_mem p w ts kp hc)
+
 /-! ### src against want -/
 
-theorem isBlockContainer_eq (kids : List Dom) : isBlockContainer kids = kids.any isBlockNode := by
-  unfold isBlockContainer
-  congr 1
+theorem isBlockTag_not_skip (tag : Str) (h : isBlockTag tag = true) : isSkip tag = false := by
+  simp only [isBlockTag, Bool.or_eq_true, beq_iff_eq] at h
+  rcases h with (((((((((((((((((((h | h) | h) | h) | h) | h) | h) | h) | h) | h) | h) | h) | h) | h) | h) | h) | h) | h) | h) | h) <;>
+    (subst h; decide)
 
-theorem wantMixed_leaf (p : Pos → Dom → Bool) (w : Bool) (kp : Pos) :
-    ∀ kids : List Dom, kids.any isBlockNode = false → wantMixed p w kp kids = tnFlatL kids
-  | [], _ => rfl
-  | k :: ks, h => by
-      simp only [List.any_cons, Bool.or_eq_false_iff] at h
-      simp only [wantMixed, tnFlatL, h.1, Bool.false_eq_true, if_false, wantMixed_leaf p w kp ks h.2]
+/-- a block-level element is never inline content -/
+theorem isBlockNode_not_inline (k : Dom) (h : isBlockNode k = true) : isInline k = false := by
+  cases k with
+  | text s => cases h
+  | other ks => cases h
+  | elem tag attrs kids =>
+    have hb : isBlockTag tag = true := h
+    simp [isInline, isBlockTag_not_skip tag hb, hb]
 
 mutual
 theorem src_want (p : Pos → Dom → Bool) (w : Bool) :
-    ∀ (t : Dom) (pos : Pos), noMixed t = true → squeeze (src p w pos t) = squeeze (want p w pos t)
-  | .text _, pos, _ => by simp [src, want]
-  | .other kids, pos, h => by
+    ∀ (t : Dom) (pos : Pos) (inP : Bool), okP inP t = true →
+      squeeze (src p w pos t) = squeeze (want p w pos inP t)
+  | .text _, pos, inP, _ => by simp [src, want]
+  | .other kids, pos, inP, h => by
       simp only [src, want]
-      exact srcL_want p w kids _ (by simpa [noMixed] using h)
-  | .elem tag attrs kids, pos, h => by
-      have hk : noMixedL kids = true := by
-        simp only [noMixed, Bool.and_eq_true] at h; exact h.2
+      cases inP with
+      | false =>
+        simp only [okP, Bool.false_eq_true, if_false] at h
+        simp only [Bool.false_eq_true, if_false]
+        exact srcL_want p w kids _ h
+      | true =>
+        simp only [okP, if_true, Bool.and_eq_true] at h
+        simp only [if_true]
+        exact srcL_wantD p w kids _ h.1 h.2
+  | .elem tag attrs kids, pos, inP, h => by
       unfold src want
       by_cases hs : isSkip tag = true
       · simp [hs]
       · by_cases hp : p pos (.elem tag attrs kids) = true
         · simp [hs, hp]
         · simp only [hs, hp, if_false, Bool.false_eq_true]
+          simp only [okP, hs, Bool.false_eq_true, if_false] at h
           cases hc : classify tag with
           | heading lvl => rfl
           | pdiv isP =>
+            rw [hc] at h
             cases isP with
             | false =>
-              simp only []
+              simp only [] at h ⊢
               split
               · rfl
-              · exact srcL_want p w kids _ hk
+              · rename_i hcnd
+                simp only [hcnd, Bool.false_eq_true, if_false] at h
+                exact srcM_wantD p w kids _ inP h
             | true =>
-              simp only []
-              have htag : tag = T.p := by
-                unfold classify at hc
-                by_cases h1 : tag = T.h1; · rw [if_pos h1] at hc; cases hc
-                rw [if_neg h1] at hc
-                by_cases h2 : tag = T.h2; · rw [if_pos h2] at hc; cases hc
-                rw [if_neg h2] at hc
-                by_cases h3 : tag = T.h3; · rw [if_pos h3] at hc; cases hc
-                rw [if_neg h3] at hc
-                by_cases h4 : tag = T.h4; · rw [if_pos h4] at hc; cases hc
-                rw [if_neg h4] at hc
-                by_cases h5 : tag = T.h5; · rw [if_pos h5] at hc; cases hc
-                rw [if_neg h5] at hc
-                by_cases h6 : tag = T.h6; · rw [if_pos h6] at hc; cases hc
-                rw [if_neg h6] at hc
-                by_cases h7 : tag = T.p; · exact h7
-                rw [if_neg h7] at hc
-                by_cases h8 : tag = T.div; · rw [if_pos h8] at hc; cases hc
-                rw [if_neg h8] at hc
-                iterate 7 (split at hc; · cases hc)
-                cases hc
+              simp only [] at h ⊢
               by_cases hb : isBlockContainer kids = true
-              · -- a paragraph with block-level children: the hypothesis says the rest is blank
-                have hbl : blankOutsideBlocks kids = true := by
-                  simp only [noMixed, Bool.and_eq_true] at h
-                  have := h.1
-                  simpa [htag, hb] using this
-                simp only [hb, Bool.not_true, Bool.and_false, Bool.false_eq_true, if_false]
-                exact srcL_wantMixed p w kids _ hbl hk
+              · simp only [hb, Bool.not_true, Bool.and_false, Bool.false_eq_true, if_false] at h ⊢
+                exact srcM_wantD p w kids _ true h
               · have hb' : isBlockContainer kids = false := by simpa using hb
-                have hleaf := wantMixed_leaf p w (pos.kid w tag) kids (by rw [← isBlockContainer_eq]; exact hb')
-                rw [hleaf]
+                simp only [hb', Bool.not_false, Bool.and_true, if_true]
                 by_cases ht : (squeeze (tnFlatL kids) != []) = true
-                · simp [ht, hb']
+                · simp [ht]
                 · have ht' : squeeze (tnFlatL kids) = [] := by simpa using ht
-                  simp only [ht', hb']
-                  simp only [bne_self_eq_false, Bool.false_and, Bool.false_eq_true, if_false]
-                  rw [srcL_blank p w kids _ ht']
-          | list ord => simp only []; exact srcL_want p w kids _ hk
+                  simp only [ht, Bool.false_eq_true, if_false]
+                  rw [srcM_blank p w kids _ ht', ht']
+          | list ord =>
+            rw [hc] at h
+            simp only [] at h ⊢
+            exact srcL_want p w kids _ h
           | li =>
-            simp only []
-            rw [squeeze_append, squeeze_append, srcLi_want p w kids _ hk]
+            rw [hc] at h
+            simp only [] at h ⊢
+            rw [squeeze_append, squeeze_append, srcLi_want p w kids _ h]
           | table => rfl
           | code => rfl
           | quote => rfl
           | void => rfl
-          | other => simp only []; exact srcL_want p w kids _ hk
+          | other =>
+            rw [hc] at h
+            simp only [] at h ⊢
+            cases inP with
+            | false =>
+              simp only [Bool.false_eq_true, if_false] at h ⊢
+              exact srcL_want p w kids _ h
+            | true =>
+              simp only [if_true, Bool.and_eq_true] at h ⊢
+              exact srcL_wantD p w kids _ h.1 h.2
 theorem srcL_want (p : Pos → Dom → Bool) (w : Bool) :
-    ∀ (ts : List Dom) (kp : Pos), noMixedL ts = true → squeeze (srcL p w kp ts) = squeeze (wantL p w kp ts)
+    ∀ (ts : List Dom) (kp : Pos), okL ts = true → squeeze (srcL p w kp ts) = squeeze (wantL p w kp ts)
   | [], kp, _ => by simp [srcL, wantL]
   | k :: ks, kp, h => by
-      simp only [noMixedL, Bool.and_eq_true] at h
-      simp only [srcL, wantL, squeeze_append, src_want p w k kp h.1, srcL_want p w ks kp h.2]
+      simp only [okL, Bool.and_eq_true] at h
+      simp only [srcL, wantL, squeeze_append, src_want p w k kp false h.1, srcL_want p w ks kp h.2]
 theorem srcLi_want (p : Pos → Dom → Bool) (w : Bool) :
-    ∀ (ts : List Dom) (kp : Pos), noMixedL ts = true → squeeze (srcLi p w kp ts) = squeeze (wantLi p w kp ts)
+    ∀ (ts : List Dom) (kp : Pos), okLi ts = true → squeeze (srcLi p w kp ts) = squeeze (wantLi p w kp ts)
   | [], kp, _ => by simp [srcLi, wantLi]
   | k :: ks, kp, h => by
-      simp only [noMixedL, Bool.and_eq_true] at h
+      simp only [okLi, Bool.and_eq_true] at h
       simp only [srcLi, wantLi, squeeze_append, srcLi_want p w ks kp h.2]
       congr 1
-      split
-      · exact src_want p w k kp h.1
-      · rfl
-theorem srcL_wantMixed (p : Pos → Dom → Bool) (w : Bool) :
-    ∀ (ts : List Dom) (kp : Pos), blankOutsideBlocks ts = true → noMixedL ts = true →
-      squeeze (srcL p w kp ts) = squeeze (wantMixed p w kp ts)
-  | [], kp, _, _ => by simp [srcL, wantMixed]
-  | k :: ks, kp, hb, h => by
-      simp only [noMixedL, Bool.and_eq_true] at h
-      simp only [blankOutsideBlocks, List.all_cons, Bool.and_eq_true] at hb
-      have hrest : blankOutsideBlocks ks = true := hb.2
-      simp only [srcL, wantMixed, squeeze_append, srcL_wantMixed p w ks kp hrest h.2]
+      by_cases hk : isListElem k = true
+      · simp only [hk, if_true] at h ⊢
+        exact src_want p w k kp false h.1
+      · simp only [hk, Bool.false_eq_true, if_false]
+/-- the children of a p/div with block-level children: inline children whole, the others by their
+own rules (inside a paragraph: wrappers transparent) -/
+theorem srcM_wantD (p : Pos → Dom → Bool) (w : Bool) :
+    ∀ (ts : List Dom) (kp : Pos) (inP : Bool), okD inP ts = true →
+      squeeze (srcM p w kp ts) = squeeze (wantD p w kp inP ts)
+  | [], kp, inP, _ => by simp [srcM, wantD]
+  | k :: ks, kp, inP, h => by
+      simp only [okD, Bool.and_eq_true, Bool.or_eq_true] at h
+      simp only [srcM, wantD, squeeze_append, srcM_wantD p w ks kp inP h.2]
       congr 1
-      by_cases hbn : isBlockNode k = true
-      · simp only [hbn, if_true]; exact src_want p w k kp h.1
-      · have : squeeze (tnFlat k) = [] := by
+      by_cases hk : isInline k = true
+      · simp only [hk, if_true]
+      · simp only [hk, Bool.false_eq_true, if_false]
+        rcases h.1 with h1 | h1
+        · exact absurd h1 hk
+        · exact src_want p w k kp inP h1
+/-- the children of a wrapper inside a paragraph: the reader traverses them all, `want` keeps the
+inline ones whole — the same when those are blank -/
+theorem srcL_wantD (p : Pos → Dom → Bool) (w : Bool) :
+    ∀ (ts : List Dom) (kp : Pos), blankInline ts = true → okD true ts = true →
+      squeeze (srcL p w kp ts) = squeeze (wantD p w kp true ts)
+  | [], kp, _, _ => by simp [srcL, wantD]
+  | k :: ks, kp, hb, h => by
+      simp only [okD, Bool.and_eq_true, Bool.or_eq_true] at h
+      simp only [blankInline, List.all_cons, Bool.and_eq_true] at hb
+      simp only [srcL, wantD, squeeze_append, srcL_wantD p w ks kp hb.2 h.2]
+      congr 1
+      by_cases hk : isInline k = true
+      · have hkb : squeeze (tnFlat k) = [] := by
           have := hb.1
-          simpa [hbn] using this
-        simp only [hbn, Bool.false_eq_true, if_false]
-        rw [src_blank p w k kp this, this]
+          simpa [hk] using this
+        simp only [hk, if_true]
+        rw [src_blank p w k kp hkb, hkb]
+      · simp only [hk, Bool.false_eq_true, if_false]
+        rcases h.1 with h1 | h1
+        · exact absurd h1 hk
+        · exact src_want p w k kp true h1
 end
 
 end Tabula.Html
